@@ -220,17 +220,36 @@ func (p *Prog) settersOf(nt *types.Named) []*ssa.Function {
 // abstractArg builds a non-zero abstract argument for a setter parameter.
 func (p *Prog) abstractArg(ctx *symCtx, setter string, t types.Type, variant int) (sv, bool) {
 	tag := fmt.Sprintf("val:%s#%d", setter, variant)
+	bias, _ := p.cache["lenbias"].(int64)
+	if bias > 0 {
+		tag = fmt.Sprintf("val:%s#%d@%d", setter, variant, bias)
+	}
 	switch u := t.Underlying().(type) {
 	case *types.Basic:
 		switch {
 		case u.Info()&types.IsBoolean != 0:
 			return sv{k: 'b', b: variant%2 == 0}, true
 		case u.Info()&types.IsString != 0:
+			if bias > 0 {
+				return sv{k: 's', i: bias, addr: tag}, true
+			}
 			return sv{k: 's', i: 1 + int64(variant), addr: tag}, true
 		case u.Info()&types.IsInteger != 0:
 			v := int64(1 + variant)
 			if strings.Contains(setter, "ReasonCode") {
 				v = 0x80 + int64(variant)
+			}
+			if bias > 0 && !strings.Contains(setter, "ReasonCode") {
+				v = bias
+				if sz := p.U.Sizes.Sizeof(u) * 8; sz < 63 {
+					hi := int64(1)<<uint(sz) - 1
+					if u.Info()&types.IsUnsigned == 0 {
+						hi = int64(1)<<uint(sz-1) - 1
+					}
+					if v > hi {
+						v = hi
+					}
+				}
 			}
 			if setter == "SetProtocolVersion" {
 				v = 5
@@ -239,6 +258,9 @@ func (p *Prog) abstractArg(ctx *symCtx, setter string, t types.Type, variant int
 		}
 	case *types.Slice:
 		if isByteSlice(t) {
+			if bias > 0 {
+				return sv{k: 's', i: bias, addr: tag}, true
+			}
 			return sv{k: 's', i: 1 + int64(variant), addr: tag}, true
 		}
 		// variadic / list of aggregates or strings: two elements
@@ -845,7 +867,74 @@ func (p *Prog) observe(tn string, recv string, mem map[string]sv, maps map[strin
 type stateSpec struct {
 	name   string
 	choose func(string) int
-	will   int // 0 none, 1 will with content
+	will   int   // 0 none, 1 will with content
+	bias   int64 // > 0: every string/binary length and every integer argument is this boundary value (clamped to the parameter's type)
+}
+
+// boundaryValues: the boundary lengths named by the properties' quantifiers (C01: 0, 1, 127, 128, 16 383, 16 384,
+// 65 534, 65 535) plus every integer constant that a comparison in package mq tests a length or value against
+// (and its successor), so that a guard such as `len(x) > K` is evaluated on both sides.
+func (p *Prog) boundaryValues() []int64 {
+	if v, ok := p.cache["boundaries"]; ok {
+		return v.([]int64)
+	}
+	set := map[int64]bool{127: true, 128: true, 16383: true, 16384: true, 65534: true, 65535: true}
+	for _, fn := range p.AllFuncs() {
+		for _, b := range fn.Blocks {
+			for _, ins := range b.Instrs {
+				bo, ok := ins.(*ssa.BinOp)
+				if !ok {
+					continue
+				}
+				switch bo.Op {
+				case token.LSS, token.LEQ, token.GTR, token.GEQ, token.EQL, token.NEQ:
+				default:
+					continue
+				}
+				for i, o := range []ssa.Value{bo.X, bo.Y} {
+					k, isC := constInt(o)
+					if !isC || k <= 0 || k >= 65535 {
+						continue
+					}
+					other := stripConvs([]ssa.Value{bo.Y, bo.X}[i])
+					relevant := false
+					if call, ok := other.(*ssa.Call); ok {
+						if bi, ok := call.Call.Value.(*ssa.Builtin); ok && bi.Name() == "len" {
+							relevant = true // a length is tested against k
+						}
+					}
+					if _, masked := other.(*ssa.BinOp); !masked && isFillFamily(fn) {
+						relevant = true // an encoder tests a value against k
+					}
+					if relevant {
+						set[k] = true
+						set[k+1] = true
+					}
+				}
+			}
+		}
+	}
+	var out []int64
+	for k := range set {
+		if k > 2 { // 1 and 2 are the regular representative lengths
+			out = append(out, k)
+		}
+	}
+	sort.Slice(out, func(i, j int) bool { return out[i] < out[j] })
+	p.cache["boundaries"] = out
+	return out
+}
+
+// buildStateSpec: buildState under the spec's boundary bias.
+func (p *Prog) buildStateSpec(tn string, spec stateSpec, choose func(string) int, will *packetState) (*packetState, string) {
+	if choose == nil {
+		choose = spec.choose
+	}
+	if spec.bias > 0 {
+		p.cache["lenbias"] = spec.bias
+		defer delete(p.cache, "lenbias")
+	}
+	return p.buildState(tn, choose, will)
 }
 
 // MQTT domain knowledge used to stay inside the C01 domain (keyed by exported
@@ -914,12 +1003,15 @@ func (p *Prog) stateSpecs(tn string) []stateSpec {
 				return f(n)
 			}
 		}
-		out = append(out, stateSpec{"none" + wtag, pick(func(string) int { return -1 }), w})
-		out = append(out, stateSpec{"all" + wtag, pick(func(string) int { return 0 }), w})
-		out = append(out, stateSpec{"all(variant)" + wtag, pick(func(string) int { return 1 }), w})
-		out = append(out, stateSpec{"all, each setter called twice (other value first)" + wtag, pick(func(string) int { return stateOverwrite }), w})
-		out = append(out, stateSpec{"all, each setter called twice (other value last)" + wtag, pick(func(string) int { return stateOverwriteRev }), w})
-		out = append(out, stateSpec{"all set, then cleared with zero values" + wtag, pick(func(n string) int {
+		out = append(out, stateSpec{name: "none" + wtag, choose: pick(func(string) int { return -1 }), will: w})
+		out = append(out, stateSpec{name: "all" + wtag, choose: pick(func(string) int { return 0 }), will: w})
+		out = append(out, stateSpec{name: "all(variant)" + wtag, choose: pick(func(string) int { return 1 }), will: w})
+		for _, bv := range p.boundaryValues() {
+			out = append(out, stateSpec{name: fmt.Sprintf("all, lengths and integers at the boundary value %d", bv) + wtag, choose: pick(func(string) int { return 0 }), will: w, bias: bv})
+		}
+		out = append(out, stateSpec{name: "all, each setter called twice (other value first)" + wtag, choose: pick(func(string) int { return stateOverwrite }), will: w})
+		out = append(out, stateSpec{name: "all, each setter called twice (other value last)" + wtag, choose: pick(func(string) int { return stateOverwriteRev }), will: w})
+		out = append(out, stateSpec{name: "all set, then cleared with zero values" + wtag, choose: pick(func(n string) int {
 			if n == "SetProtocolName" || n == "SetProtocolVersion" {
 				return -1
 			}
@@ -927,24 +1019,24 @@ func (p *Prog) stateSpecs(tn string) []stateSpec {
 				return 0
 			}
 			return stateClear
-		}), w})
+		}), will: w})
 		for _, one := range names {
 			one := one
 			if one == "SetWill" {
 				continue
 			}
-			out = append(out, stateSpec{"only " + one + wtag, pick(func(n string) int {
+			out = append(out, stateSpec{name: "only " + one + wtag, choose: pick(func(n string) int {
 				if n == one {
 					return 0
 				}
 				return -1
-			}), w})
-			out = append(out, stateSpec{"all but " + one + wtag, pick(func(n string) int {
+			}), will: w})
+			out = append(out, stateSpec{name: "all but " + one + wtag, choose: pick(func(n string) int {
 				if n == one {
 					return -1
 				}
 				return 0
-			}), w})
+			}), will: w})
 		}
 		if thoroughMode {
 			// every pair of setters
@@ -954,18 +1046,18 @@ func (p *Prog) stateSpecs(tn string) []stateSpec {
 					if a == "SetWill" || b == "SetWill" {
 						continue
 					}
-					out = append(out, stateSpec{"pair " + a + "+" + b + wtag, pick(func(n string) int {
+					out = append(out, stateSpec{name: "pair " + a + "+" + b + wtag, choose: pick(func(n string) int {
 						if n == a || n == b {
 							return 0
 						}
 						return -1
-					}), w})
-					out = append(out, stateSpec{"all but " + a + "+" + b + wtag, pick(func(n string) int {
+					}), will: w})
+					out = append(out, stateSpec{name: "all but " + a + "+" + b + wtag, choose: pick(func(n string) int {
 						if n == a || n == b {
 							return -1
 						}
 						return 1
-					}), w})
+					}), will: w})
 				}
 			}
 		}
@@ -992,12 +1084,12 @@ func (p *Prog) stateSpecs(tn string) []stateSpec {
 					tag = append(tag, n)
 				}
 			}
-			out = append(out, stateSpec{"just{" + strings.Join(tag, ",") + "}" + wtag, pick(func(n string) int {
+			out = append(out, stateSpec{name: "just{" + strings.Join(tag, ",") + "}" + wtag, choose: pick(func(n string) int {
 				if sel[n] {
 					return 0
 				}
 				return -1
-			}), w})
+			}), will: w})
 		}
 	}
 	return out
